@@ -113,7 +113,7 @@ Qed.
    whether the loop is parked: two runs of the same schedule under different capacities in which no
    event is scheduled while the loop is parked go through the same protocol states, the same queue and
    hand the user the same events. *)
-Definition lcore (l : lst) : st * list uev * list N * list peer := (ls l, lq l, lsk l, lnf l).
+Definition lcore (l : lst) : st * list uev * list N * list (peer * N) := (ls l, lq l, lsk l, lnf l).
 
 Fixpoint never_blocked (c : cfg) (cap : nat) (l : lst) (gs : list lop) : bool :=
   match gs with
